@@ -32,6 +32,8 @@ type c18Case struct {
 	Needs [][]string // per job, as written
 	Desc  string
 	IDs   []string `json:"ids,omitempty"` // job ids when they are not the default ones
+	// SameLine: all job ids on one source line at different columns (flow style), rule level only
+	SameLine bool `json:"same_line,omitempty"`
 }
 
 func (c *c18Case) yaml() string {
@@ -128,8 +130,16 @@ func c18Judge(c *c18Case, e *c18Expect, diags []vDiag, jobLine func(int) int) (s
 		idx[strings.ToLower(c18IDs[i])] = i
 	}
 	lineJob := map[int]int{}
+	code := func(line, col int) int { return line }
+	if c.SameLine {
+		code = func(line, col int) int { return line*1000 + col }
+	}
 	for i := 0; i < c.N; i++ {
-		lineJob[jobLine(i)] = i
+		if c.SameLine {
+			lineJob[code(10, 3+20*i)] = i
+		} else {
+			lineJob[jobLine(i)] = i
+		}
 	}
 	gotDang := map[int][]string{}
 	gotDup := map[int][]string{}
@@ -140,7 +150,7 @@ func c18Judge(c *c18Case, e *c18Expect, diags []vDiag, jobLine func(int) int) (s
 			continue
 		}
 		if m := c18DangRe.FindStringSubmatch(d.Msg); m != nil {
-			j, ok := lineJob[d.Line]
+			j, ok := lineJob[code(d.Line, d.Col)]
 			if !ok || strings.ToLower(c18IDs[j]) != m[1] {
 				return "dangling-position", fmt.Sprintf("dangling diagnostic %v is not located at the referring job", d)
 			}
@@ -213,7 +223,7 @@ func c18Judge(c *c18Case, e *c18Expect, diags []vDiag, jobLine func(int) int) (s
 		}
 		seen[path[k]] = true
 	}
-	j, ok := lineJob[cycles[0].Line]
+	j, ok := lineJob[code(cycles[0].Line, cycles[0].Col)]
 	if !ok || !seen[j] {
 		return "cycle-position", fmt.Sprintf("cycle diagnostic at line %d is not at a job of the printed cycle %q", cycles[0].Line, m[1])
 	}
@@ -224,10 +234,17 @@ func c18Judge(c *c18Case, e *c18Expect, diags []vDiag, jobLine func(int) int) (s
 func c18RunRule(c *c18Case) []vDiag {
 	rule := NewRuleJobNeeds()
 	for i := 0; i < c.N; i++ {
-		line := 10 * (i + 1)
-		job := &Job{ID: &String{Value: c18IDs[i], Pos: &Pos{line, 3}}, Pos: &Pos{line, 3}}
+		line, col := 10*(i+1), 3
+		if c.SameLine {
+			line, col = 10, 3+20*i
+		}
+		job := &Job{ID: &String{Value: c18IDs[i], Pos: &Pos{line, col}}, Pos: &Pos{line, col}}
 		for k, n := range c.Needs[i] {
-			job.Needs = append(job.Needs, &String{Value: n, Pos: &Pos{line + 1, 13 + k}})
+			np := &Pos{line + 1, 13 + k}
+			if c.SameLine {
+				np = &Pos{line, col + 5 + k}
+			}
+			job.Needs = append(job.Needs, &String{Value: n, Pos: np})
 		}
 		if err := rule.VisitJobPre(job); err != nil {
 			panic(err)
@@ -508,6 +525,15 @@ func TestVerifC18(t *testing.T) {
 	if vThorough() {
 		r.Bounds["jobs_loop_free_graphs"] = 5
 		c18Enumerate(5, false, false, check)
+	}
+	// every graph on <= 4 jobs (no dangling / duplicate entries) with all job ids on ONE source line
+	// (flow style): positions differ in the column only
+	for n := 1; n <= 4; n++ {
+		c18Enumerate(n, true, false, func(idx int64, c *c18Case) bool {
+			c.Desc = "same-line " + c.Desc
+			c.SameLine = true
+			return check(idx+2<<40, c)
+		})
 	}
 	// the same graphs on <= 3 jobs with ids and dangling names in unusual spellings (leading digit,
 	// dot, space, leading underscore): ids are labels, the verdicts do not depend on them
